@@ -3,5 +3,5 @@
 patch="$(readlink -f "$1")"; cd /verif
 git -C /repo diff --quiet || { echo "/repo not clean"; exit 3; }
 git -C /repo apply "$patch" || { echo "patch does not apply"; exit 3; }
-./check all --tier quick | grep -E "^(src|mech)|ANALYSIS-ERROR" | cut -c1-230
+VERIF_NO_EVIDENCE=1 ./check all --tier quick | grep -E "^(src|mech)|ANALYSIS-ERROR" | cut -c1-230
 git -C /repo checkout -- .
